@@ -12,6 +12,7 @@ import json
 import random
 import warnings
 
+import bridgetie
 import coregen
 import coremodel
 import coreprop
@@ -20,7 +21,7 @@ import lib
 import universe
 
 COQ_TARGETS = ["theories/Props/C05.vo", "theories/Props/C05Bridge.vo", "theories/Model/BuildTables.vo",
-               "theories/Model/CoreTables.vo"]
+               "theories/Model/CoreTables.vo", "theories/Model/GraphBridgeEq.vo"]
 THEOREMS = ["C05_build_routes", "C05_unmarshal", "C05_marshal"]
 BRIDGE_THEOREMS = ["C05_contract_from_graph", "C05_contract_from_graph_env", "C05_root_from_graph",
                    "C05_orders_contract_from_graph", "C05_unmarshal_from_graph", "C05_marshal_from_graph",
@@ -105,6 +106,9 @@ def correspond(run: lib.Run):
     run.record_corr("mechanism-on-observed-order-vs-implementation", ncases, [g.cases[i][4] for g, i in bm], distinct, dist)
     run.record_corr("mechanism-vs-reference-semantics", ncases, [g.cases[i][4] for g, i in ba], distinct, dist)
     run._c05_bad = bs + bm + ba
+    # one module, two descriptions: the hypotheses of graph_orders (Props/C05Bridge.v) are decided on every
+    # observed order that lies in the translated fragment (notes/bridge.md); tie:order_ok above stays as a cross-check
+    bridgetie.bridge_obligations(run, groups, "c05")
     if groups and groups[0].cases:
         run.samples.append(groups[0].cases[0][4])
 
